@@ -15,7 +15,10 @@ import (
 	"crypto/elliptic"
 	crand "crypto/rand"
 	"crypto/x509"
+	"crypto/x509/pkix"
 	"fmt"
+	"math/big"
+	"net"
 	"sort"
 	"strings"
 	"sync"
@@ -59,7 +62,26 @@ func kindLeaf(kind string, names []string) tls.Certificate {
 		nb, na = now.Add(48*time.Hour), now.Add(72*time.Hour)
 	}
 	c14Serial++
-	c := tls.Certificate{Certificate: [][]byte{mkLeaf(ca, caKey, &c14Key.PublicKey, c14Serial, names, nb, na)}, PrivateKey: c14Key}
+	// names that are IP literals become IP SANs; no other IP SAN (so an IP-literal ServerName can mismatch)
+	tmpl := &x509.Certificate{
+		SerialNumber: big.NewInt(c14Serial),
+		Subject:      pkix.Name{CommonName: names[0], Organization: []string{"verif"}},
+		NotBefore:    nb, NotAfter: na,
+		KeyUsage:    x509.KeyUsageDigitalSignature | x509.KeyUsageKeyEncipherment,
+		ExtKeyUsage: []x509.ExtKeyUsage{x509.ExtKeyUsageServerAuth},
+	}
+	for _, n := range names {
+		if ip := net.ParseIP(n); ip != nil {
+			tmpl.IPAddresses = append(tmpl.IPAddresses, ip)
+		} else {
+			tmpl.DNSNames = append(tmpl.DNSNames, n)
+		}
+	}
+	der, err := x509.CreateCertificate(crand.Reader, tmpl, ca, &c14Key.PublicKey, caKey)
+	if err != nil {
+		panic(err)
+	}
+	c := tls.Certificate{Certificate: [][]byte{der}, PrivateKey: c14Key}
 	c14Leaves[key] = c
 	return c
 }
@@ -112,17 +134,19 @@ func genCertHS(r *Rng, i int, tier string) string {
 		}
 	}
 	kind := Pick(r, []string{"valid", "valid", "wrongname", "wrongname", "untrusted", "expired", "notyet"})
-	sn := Pick(r, []string{"example.golang", "verif.test", "host.verif.test"})
+	// incl. an IP literal: the ClientHello then carries no SNI, the verification name stays ServerName
+	sn := Pick(r, []string{"example.golang", "verif.test", "host.verif.test", "127.0.0.1", "127.0.0.1"})
 	if ech != "none" {
 		sn = c14Secret
 	}
+	nosni := ech == "none" && idx.name != "Golang-0" && r.Intn(5) == 0
 	// names the leaf is valid for
 	var names []string
 	switch ech {
 	case "none":
-		names = []string{"example.golang", "verif.test", "*.verif.test", "localhost"}
+		names = []string{"example.golang", "verif.test", "*.verif.test", "localhost", "127.0.0.1"}
 		if kind == "wrongname" {
-			names = []string{"other.invalid"}
+			names = Pick(r, [][]string{{"other.invalid"}, {"other.invalid", "127.0.0.9"}})
 		}
 	case "acc":
 		names = []string{c14Secret, "localhost"}
@@ -150,8 +174,8 @@ func genCertHS(r *Rng, i int, tier string) string {
 	} else if r.Intn(12) == 0 {
 		t2 = "future"
 	}
-	return fmt.Sprintf("id=%s vers=%d ech=%s leaf=%s:%s sn=%s nv=%s skipv=%s skipt=%s mode=%s first=%s t2=%s ks=%d",
-		idx.name, vers, ech, kind, strings.Join(names, "+"), sn, nv, b2i(skipv), b2i(skipt), mode, first, t2, r.U64()>>1)
+	return fmt.Sprintf("id=%s vers=%d ech=%s leaf=%s:%s sn=%s nv=%s skipv=%s skipt=%s mode=%s first=%s t2=%s ks=%d nosni=%s",
+		idx.name, vers, ech, kind, strings.Join(names, "+"), sn, nv, b2i(skipv), b2i(skipt), mode, first, t2, r.U64()>>1, b2i(nosni))
 }
 
 // x509Oracle: does the leaf verify against the kit roots for name at time t (the question the
@@ -207,6 +231,11 @@ func execCertHS(in KV) string {
 			RootCAs: kit().pool, ClientSessionCache: cache, OmitEmptyPsk: true, EncryptedClientHelloConfigList: echList,
 			Time: func() time.Time { return at }}
 	}
+	// a spec that sends no server_name extension at all
+	var prep func(u *tls.UConn) error
+	if in["nosni"] == "1" {
+		prep = func(u *tls.UConn) error { return u.RemoveSNIExtension() }
+	}
 	var sb strings.Builder
 	sb.WriteString("out=ok")
 	hadChains, sess := false, false
@@ -226,7 +255,7 @@ func execCertHS(in KV) string {
 		default:
 			c1 = mkClient("", true, true, now)
 		}
-		r1 := runHS(HSOpts{ID: id, ClientCfg: c1, ServerCfg: srvCfg, AppData: []byte("first")})
+		r1 := runHS(HSOpts{ID: id, ClientCfg: c1, ServerCfg: srvCfg, AppData: []byte("first"), Prepare: prep})
 		fc, _ := clientResult(r1.ClientErr)
 		for _, s := range cache.m {
 			if s != nil {
@@ -239,11 +268,12 @@ func execCertHS(in KV) string {
 		fmt.Fprintf(&sb, " first=%s", fc)
 	}
 	c2 := mkClient(nv, in["skipv"] == "1", in["skipt"] == "1", t2)
-	res := runHS(HSOpts{ID: id, ClientCfg: c2, ServerCfg: srvCfg, AppData: []byte("second")})
+	res := runHS(HSOpts{ID: id, ClientCfg: c2, ServerCfg: srvCfg, AppData: []byte("second"), Prepare: prep})
 	if res.PrepareErr != nil {
 		return "out=prepare-failed msg=" + sanitize(res.PrepareErr.Error())
 	}
 	cls, _ := clientResult(res.ClientErr)
+	fmt.Fprintf(&sb, " sni=%s", sniOfFirstHello(res.ClientWire))
 	fmt.Fprintf(&sb, " c=%s resumed=%s sess=%s chains1=%s csn=%s cech=%s s=%s", cls, b2i(res.ClientState.DidResume), b2i(sess), b2i(hadChains),
 		nameTok(res.ClientState.ServerName), b2i(res.ClientState.ECHAccepted), errClass(res.ServerErr))
 	// the x509 oracle for every plan the model may form
@@ -276,6 +306,21 @@ func execCertHS(in KV) string {
 }
 
 func echListOf(cfg []byte) []byte { return echList(cfg) }
+
+// sniOfFirstHello: the server_name the first recorded ClientHello carries ("-" = none).
+func sniOfFirstHello(wire []byte) string {
+	hs := clientHellos(wire)
+	if len(hs) == 0 {
+		return "?"
+	}
+	exts, _ := helloExts(hs[0])
+	for _, e := range exts {
+		if e.typ == 0 && len(e.data) > 5 {
+			return nameTok(string(e.data[5:]))
+		}
+	}
+	return "-"
+}
 
 func init() {
 	register(&Family{Name: "cert_hs", Gen: genCertHS, Exec: execCertHS, Timeout: 40 * time.Second})
